@@ -147,6 +147,7 @@ def execute(sc, ctx):
                 ctx.probe("dup_rejected")
                 obj = Rec_(sid_of(dup), model, w) if spec["kind"] == "system" else RecCollector(dup, model, w)
                 ctx.expect_raises("add-duplicate", KeyError, sm.add_system, obj)
+                obj = None          # the rejected object dies here: CPython may hand its address (its id()) to the next system created
                 ctx.event("add_rejected", sid)
                 shape.append(["dup", len(ref.q)])
             else:
